@@ -16,7 +16,7 @@ THEOREMS = ["C14.C14_rate_noninterference", "C14.C14_rate_noninterference_new", 
             "C14.C14_heap_pop_isMin", "C14.C14_evicted_restarts", "C14.C14_conn_noninterference"]
 RACE = False
 JOBS = 8
-RULE = ("scenario = interleaved history of 2-6 sources through one TokenLimiter (capacity below / at / above the number of sources) with, "
+RULE = ("scenario = interleaved history of 2-6 sources through one TokenLimiter (capacity below / at / above the number of sources, or no Capacity option at all = DefaultCapacity) with, "
         "next to it, one private TokenLimiter per source fed only that source's requests (solo=1; a source named as eviction victim "
         "restarts its private limiter), also with per-request rate sets drawn from a few shared plans (one *RateSet object per plan, "
         "sources moved between plans while others use them); or interleaved starts/finishes through one ConnLimiter whose protected handler may rewrite the "
@@ -48,7 +48,7 @@ def _within(rng, n_ops):
     nsrc = rng.randint(2, 6)
     cap = nsrc + rng.choice([0, 0, 1, 3])
     sources = ["s%d" % i for i in range(nsrc)]
-    return (["cfg rate %s cap=%d solo=1" % (rc.fmt_rates(rates), cap)]
+    return (["cfg rate %s cap=%s solo=1" % (rc.fmt_rates(rates), "default" if rng.random() < 0.3 else str(cap))]
             + rc.gen_source_ops(rng, rates, sources, n_ops, allow_retry=False, allow_rates=False))
 
 
@@ -66,7 +66,7 @@ def _plans(rng, n_ops):
     default = [(period, 1, rng.choice([1, 2, 4]))]
     nsrc = rng.randint(2, 4)
     sources = ["s%d" % i for i in range(nsrc)]
-    lines = ["cfg rate %s cap=%d solo=1" % (rc.fmt_rates(default), nsrc + rng.choice([0, 1]))]
+    lines = ["cfg rate %s cap=%s solo=1" % (rc.fmt_rates(default), "default" if rng.random() < 0.3 else str(nsrc + rng.choice([0, 1])))]
     plan = {s: rng.choice(plans) for s in sources}
     t = rng.choice([0, 5, S - 1])
     prev_plan = None
@@ -247,7 +247,7 @@ def _monitor_rate(ops, outs):
         return []
     rates = rc.parse_rates(cfg[2])
     ttl = rc.ttl_of(rates)
-    cap = int(rc.kv(cfg, "cap") or 0) or 65536
+    cap = rc.cap_of(cfg)
     bad = []
     if len(set(e.src for e in evs)) <= cap and not any(e.evict for e in evs):
         # within capacity nothing is ever forgotten to make room: every decision must equal the solo one, whatever
@@ -418,7 +418,7 @@ def describe(ops, outs, hist):
     hist["kind:" + kind] += 1
     if kind == "rate":
         _, c, evs, _ = rc.events(ops, outs)
-        cap = int(rc.kv(c, "cap") or 0) or 65536
+        cap = rc.cap_of(c)
         n = len(set(e.src for e in evs))
         hist["sources-vs-cap:%s" % ("below" if n < cap else "at" if n == cap else "above")] += 1
         for e in evs:
